@@ -47,7 +47,7 @@ func runC14(c *fw.Ctx, idx int) fw.Result {
 	if r.Chance(0.3) {
 		form = "sam"
 	}
-	opts := gen.AnnoOpts{MaxFeats: 5, AllowUnnamed: false, AllowSlip: true, SplitCodons: true, Isoforms: true, Rotate: true, NoStop: true, DupNames: true, CRLF: true, AmbigRef: true}
+	opts := gen.AnnoOpts{MaxFeats: 5, AllowUnnamed: false, AllowSlip: true, SplitCodons: true, Isoforms: true, Rotate: true, NoStop: true, DupNames: true, CRLF: true, AmbigRef: true, NoFeatures: true}
 	vp := gen.DefaultVarProfile()
 	if r.Chance(0.4) {
 		vp.PDel, vp.MaxInsSites = 0.05, 5
